@@ -67,6 +67,8 @@ def build_inventory(forest):
         class_skel = {st.name: [_skeleton(x, ())[0] for x in _flat_statements(st)] for st in tree.body if isinstance(st, ast.ClassDef)}
         inv[m] = {'locals': reference_names(forest).get(m, {}),
                   'params': {q: sorted(_params(node)) for (mm, q, node) in forest.functions() if mm == m},
+                  'positional': {q: [a.arg for a in node.args.posonlyargs + node.args.args]
+                                 for (mm, q, node) in forest.functions() if mm == m and isinstance(node, ast.FunctionDef)},
                   'signature': {q: [a.arg for a in node.args.posonlyargs + node.args.args] + [a.arg for a in node.args.kwonlyargs]
                                 for (mm, q, node) in forest.functions() if mm == m and isinstance(node, ast.FunctionDef)},
                   'class_skel': class_skel,
